@@ -93,17 +93,32 @@ func sameViolation(res *Result, prop, class string) *Violation {
 	return nil
 }
 
+// SafeExecute runs the driver and turns a panic of the harness itself into a
+// harness error (exit 2), never into a violation.
+func SafeExecute(d Driver, c *Case) (res *Result) {
+	defer func() {
+		if r := recover(); r != nil {
+			res = &Result{HarnessErr: fmt.Sprintf("harness panic: %v", r)}
+		}
+	}()
+	return d.Execute(c)
+}
+
 // Minimise shrinks the case while the same violation class persists: ddmin
 // over the operation list, then faults one by one, then the schedule.
-func Minimise(d Driver, c *Case, prop, class string, budget time.Duration) *Case {
+func Minimise(d Driver, c *Case, prop, class string, budget time.Duration, keep func(*Violation) bool) *Case {
 	deadline := time.Now().Add(budget)
 	best := c.Clone()
 	try := func(cand *Case) bool {
 		if time.Now().After(deadline) {
 			return false
 		}
-		res := d.Execute(cand)
-		return res.HarnessErr == "" && sameViolation(res, prop, class) != nil
+		res := SafeExecute(d, cand)
+		if res.HarnessErr != "" {
+			return false
+		}
+		v := sameViolation(res, prop, class)
+		return v != nil && (keep == nil || keep(v))
 	}
 	// ddmin on ops
 	n := 2
@@ -204,7 +219,7 @@ func RunWorker(d Driver, tier string, seed uint64, w, nw int, maxRuns uint64, de
 			continue
 		}
 		c.Seed = rs
-		res := d.Execute(c)
+		res := SafeExecute(d, c)
 		sum.Evaluations++
 		if len(sum.Seeds) < 4 {
 			sum.Seeds = append(sum.Seeds, rs)
@@ -266,9 +281,26 @@ func RunWorker(d Driver, tier string, seed uint64, w, nw int, maxRuns uint64, de
 					base = c
 				}
 			}
-			min := Minimise(d, base, v.Property, v.Class, 20*time.Second)
+			// a shrunk case must not morph into a violation that a known
+			// finding covers when the original is not covered
+			notKnown := func(x *Violation) bool {
+				for _, f := range findings.Findings {
+					if f.Status == "open" && active[f.ID] && f.Matches(x) {
+						return false
+					}
+				}
+				return true
+			}
+			min := Minimise(d, base, v.Property, v.Class, 20*time.Second, notKnown)
 			mres := d.Execute(min)
 			mv := sameViolation(mres, v.Property, v.Class)
+			for i := range mres.Violations {
+				x := &mres.Violations[i]
+				if x.Property == v.Property && x.Class == v.Class && notKnown(x) {
+					mv = x
+					break
+				}
+			}
 			minimised := true
 			if mv == nil { // should not happen; fall back to the original
 				min, mres, mv, minimised = c, res, v, false
